@@ -125,7 +125,8 @@ class KernExporter(object):
             )
             # Find notes
             note_mask = np.array(
-                [isinstance(el, spt.GenericNote) for el in elements_starting]
+                [isinstance(el, spt.GenericNote) for el in elements_starting],
+                dtype=bool,
             )
             if np.any(~note_mask):
                 bar_mask = np.array(
